@@ -1002,10 +1002,28 @@ class Sem:
             return None
         return f_or(good)
 
+    def _single_def(self, n, frames):
+        """the initialiser of the immutable, never re-assigned `let x = init;` that the path `x` names (any frame)"""
+        r = path_res(n)
+        if not r or r.get("r") != "local":
+            return None
+        for fr in frames:
+            b = fr.binds.get(r["id"])
+            if b is not None:
+                if b.kind == "let" and b.expr is not None and not b.assigns and not b.proj and not b.mutable and b.pat is not None and \
+                        b.pat.get("k") == "PBinding" and not b.pat.get("sub"):
+                    return b.expr
+                return None
+        return None
+
     def _leaves(self, body, own, sites=None):
         out = []
         all_sites = sites if sites is not None else self.sites()
         site_of = {id(s.node): s for s in all_sites if own(s)}
+        frames = []
+        for s_ in all_sites:
+            if own(s_) and all(s_.frame is not f for f in frames):
+                frames.append(s_.frame)
 
         def leaves(n, into):
             n0 = n
@@ -1021,8 +1039,14 @@ class Sem:
                     leaves(a["body"], into)
             elif k in ("Ret", "Break", "Continue") or n.get("ty") == "!":
                 pass
+            elif k == "Path" and self._single_def(n, frames) is not None and depth[0] < 6:
+                # `let r = <expr>; r`: the leaves of <expr>
+                depth[0] += 1
+                leaves(self._single_def(n, frames), into)
+                depth[0] -= 1
             else:
                 into.append(n)
+        depth = [0]
         top = []
         leaves(body, top)
         for s in all_sites:
